@@ -114,6 +114,52 @@ CLAIMS = {
               "wall-clock bound 'no later than its timeout' depends on the actix 500 ms timer (runtime, only sampled); "
               "delivery of NotifyConfig to the client is not modelled"),
         technique="Lean 4 theorem (invariant over all interleavings) + differential correspondence"),
+    "C11": dict(
+        category="proof",
+        text=("Theorems (lean/RNacos/Props/C11.lean + Lemmas/{NamingSvc,Naming}.lean): an invariant preserved by every "
+              "registry operation (register/update from HTTP, gRPC, cluster sync with any update tag, deregistration "
+              "with any client id, client removal, time checks at any times, console removal, empty-service clean-up) and "
+              "hence true in every reachable state (inv_reachable): instance count = number of instances, healthy count "
+              "= number of healthy ones (counters_exact), persistent set = non-ephemeral instances "
+              "(persistent_set_exact), every service listed exactly once (index_exact), every instance recorded for a "
+              "client exists and belongs to it (client_map_exact), a service is only dropped when it has no instance "
+              "(empty_drop_safe, console_remove_refused). Hypothesis OriginOK (HTTP handlers never set a client id) is "
+              "explicit. Tie: differential correspondence on the real NamingActor (frozen clock, hook dump) with an "
+              "audit oracle on the implementation's own counters vs its own query results; two real defects found and "
+              "fixed (F14, F15)."),
+        note=("trusted: Lean kernel; hand model RNacos/Model/Naming.lean (metadata, cluster names, notifications not "
+              "modelled); LD_PRELOAD clock shim; process range exercised as 'none' and 'everything' only"),
+        technique="Lean 4 theorem (invariant by induction over op sequences) + differential correspondence"),
+    "C12": dict(
+        category="proof",
+        text=("Theorems (lean/RNacos/Props/C12.lean): whatever an instance query returns is an enabled stored instance "
+              "of that service, health flag raised only by the protection rule (query_only_registered); every enabled "
+              "stored instance is returned (all), every healthy one (healthy-only), every one when the threshold is "
+              "reached (query_complete, healthy_only_unless_protected); a new registration is stored with exactly its "
+              "fields (new_carries_fields); a deregistration with a different non-empty client id does not remove an "
+              "ephemeral instance, a matching or empty one does (deregister_guard, deregister_own); when a connection "
+              "ends every ephemeral instance it registered is removed and no instance of another client and no "
+              "persistent instance is (disconnect_removes_own, disconnect_keeps_others). Tie: correspondence on the real "
+              "NamingActor incl. complete k-of-n threshold boundaries; oracle on the implementation's own answers."),
+        note=("trusted: Lean kernel; hand model RNacos/Model/Naming.lean; thresholds/weights as thousandths; metadata "
+              "overrides not modelled; LD_PRELOAD clock shim"),
+        technique="Lean 4 theorem + differential correspondence"),
+    "C13": dict(
+        category="proof",
+        text=("PARTIAL (timers and cluster propagation are runtime). Theorems (lean/RNacos/Props/C13.lean) about a time "
+              "check at any time over arbitrary contents of the two time-out sets: an instance heard of within the "
+              "health time-out is neither marked nor removed (never_while_beating); persistent, gRPC and replicated "
+              "instances are never touched (persistent_grpc_never_expire); a silent HTTP instance is unhealthy (or "
+              "gone) after the first check past the health time-out and gone after the first check past the instance "
+              "time-out (unhealthy_after, removed_after), with the arming facts they need (update_arms, "
+              "markUnhealthy_arms). Kept visible: taken_over_never_expires = open known finding F16c (replayed on the "
+              "real actor every run); F16a found and fixed. Tie: correspondence on the real NamingActor with a frozen "
+              "wall clock incl. the exact +-1 ms boundaries of both time-outs; timeline oracle on the "
+              "implementation's answers. Not covered: the 2 s timer that issues the checks, 'and then everywhere' "
+              "(see C15)."),
+        note=("trusted: Lean kernel; hand model RNacos/Model/Naming.lean; LD_PRELOAD clock shim; time checks issued as "
+              "explicit PeekListenerTimeout messages; default time-outs 18 s / 33 s"),
+        technique="Lean 4 theorem (timeline lemmas over the time-out sets) + differential correspondence"),
 }
 
 PENDING_REASON = ("not yet built in this session (planned, see DESIGN.md §9); no claim is made until its theorems and "
